@@ -11,6 +11,13 @@
               alive and A recovers;
     vault     the full operator, N objects patched concurrently while the server invalidates the credentials: one
               re-authentication, every blocked request proceeds with fresh credentials, invalidated ones not reused.
+(C) Vault.tla: the implementation-shaped model of re-authentication (credentials.Vault, @authenticated, the retry on the same
+    context, the authenticator; asyncio's Lock and Condition as they behave) model-checked over all interleavings of 2-3
+    requesters x 1-2 keys x revocations x faults x login outcomes (NoReuse, SingleReauth, ReauthOnlyOnRevocation, NoCrash,
+    NoLeak, LockDiscipline; thorough: termination under fairness), with a negative variant that must fail;
+    step conformance: the real Vault / authenticated / api.request / authenticator observed from outside (the vault's own
+    Condition and Lock replaced by recording subclasses) in seeded-random schedules of requests, revocations, faults, login
+    outcomes and close() latencies, every event validated by TLC against Trace_Vault.tla.
 """
 from __future__ import annotations
 
@@ -264,8 +271,57 @@ def timer_case(sc: dict[str, Any]) -> dict[str, Any]:
         sim.close()
 
 
+def vault_stage(ctx, rep) -> None:
+    """(C) Vault.tla: model checking and step conformance of the real re-authentication machinery."""
+    from vf import vault
+    cfgs = ['MC_Vault_k1.cfg', 'MC_Vault_k2q.cfg'] if ctx.quick else ['MC_Vault_k1.cfg', 'MC_Vault_k2.cfg', 'MC_Vault_k2all.cfg', 'MC_Vault_live.cfg']
+    for cfg in cfgs:
+        r = tlc.run('MC_Vault', cfg, timeout=3600)
+        rep.add_tlc(cfg[:-4], r)
+        if not r.ok:
+            rep.violation(f'the model of re-authentication (Vault.tla, {cfg}) violates {r.violated}', files={'tlc.out': r.out[-100000:]})
+            return
+    r = tlc.run('MC_Vault', 'MC_Vault_neg.cfg')
+    rep.add_tlc('MC_Vault_neg', r)
+    if ('invariant', 'ReauthOnlyOnRevocation') not in r.violated:
+        from vf.evidence import MachineryFailure
+        raise MachineryFailure(f'the negative variant of Vault.tla (invalidate by key) must violate ReauthOnlyOnRevocation: {r.violated}')
+    rep.extra['negative_config_vault'] = 'MC_Vault_neg (Variant = "bykey"): ReauthOnlyOnRevocation violated, as it must be'
+    scs = vault.scenarios(ctx.seed, 400 if ctx.quick else 6000)
+    with ProcessPoolExecutor(16) as ex:
+        traces = list(ex.map(vault.run_case, scs, chunksize=8))
+    verdicts = {}
+    for i in range(0, len(traces), 1500):
+        verdicts.update(vault.judge(traces[i:i + 1500], rep))
+    rep.traces += len(traces); rep.evaluations += sum(len(t['events']) for t in traces)
+    feats: dict[str, int] = {}
+    for t in traces:
+        v = verdicts[t['id']]['verdict']
+        evs = {e['ev'] for e in t['events']}
+        for f in ('lock.queue', 'send.closed', 'retry', 'sel.fail', 'flush.b', 'cond.wake'):
+            feats[f] = feats.get(f, 0) + (f in evs)
+        feats[t['mode']] = feats.get(t['mode'], 0) + 1
+        feats[f'keys={t["nkeys"]}'] = feats.get(f'keys={t["nkeys"]}', 0) + 1
+        if any(e['ev'] in ('flush.b', 'sel.fail', 'retry') for e in t['events']):
+            rep.nontrivial([(e['ev'], e['task']) for e in t['events']])
+        payload = {'scenario': t['scenario'], 'events': t['events'], 'outcomes': t['outcomes']}
+        if v != 'accepted':
+            rep.violation(f'{t["id"]}: re-authentication does not follow Vault.tla: {v}', payload)
+        elif t['pending']:
+            rep.violation(f'{t["id"]}: blocked_request_never_proceeded: {t["pending"]} still wait(s) at the end of the run', payload)
+        elif t['auth_died']:
+            rep.violation(f'{t["id"]}: the authenticator died: {t["auth_died"]}', payload)
+        elif any(o.startswith('crash') for os_ in t['outcomes'].values() for o in os_):
+            rep.violation(f'{t["id"]}: a request ended with an unexpected error: {t["outcomes"]}', payload)
+    rep.extra['vault_trace_features'] = feats
+    rep.sample({'vault_trace': traces[0]['id'], 'events': traces[0]['events'][:40]})
+
+
 def run(ctx, rep) -> None:
     logging.disable(logging.CRITICAL)
+    if ctx.only == {'vault'}:          # development aid
+        vault_stage(ctx, rep)
+        return
     rep.rule = ('(A) TLC enumerates fault words x backoff configurations on the reference; (B) the real api.request on every fault word '
                 '(attempt instants exact), throttling and re-authentication scenarios on the full operator, judged by Infra!ClassifyC12; '
                 'non-trivial = a record with at least one fault / error / 401')
@@ -292,3 +348,4 @@ def run(ctx, rep) -> None:
     rep.sample(recs[17]); rep.sample(next(r_ for r_ in recs if r_['kind'] == 'throttle')); rep.sample(next(r_ for r_ in recs if r_['kind'] == 'vault'))
     for i, label in sorted(bad.items()):
         rep.classified(label if label.startswith('F') else '', f'{label}: {str(recs[i])[:500]}', payload=recs[i])
+    vault_stage(ctx, rep)
